@@ -29,7 +29,7 @@ RULE = ("schedules = every interleaving (call granularity) of per-document progr
         "the same programs run free on one goroutine per document")
 
 CORE = ["AddFootnote", "AddEndnote", "RemoveFootnote", "AddListItem", "AddImage", "AddStyle", "ToBytes"]
-FULL = CORE + ["RemoveEndnote", "RestartNumbering", "AddParagraph", "AddTable", "AddHeader", "AddFooter", "GenerateTOC",
+FULL = CORE + ["AddFootnoteToRun", "RemoveEndnote", "RestartNumbering", "AddParagraph", "AddTable", "AddHeader", "AddFooter", "GenerateTOC",
                "SetPageMargins", "SetFootnoteConfig", "RenderTextTemplate", "ConvertMd", "Save", "Open"]
 SUBOPS = ["AddFootnote", "AddEndnote", "AddListItem"]
 
@@ -232,12 +232,12 @@ def run(ctx):
         execute(ctx, sub, "sub", "go")
         if not q:
             sub3 = gen(ctx, "gen_sub3.cfg", "SpecGenSub", "EmitSub", 2, SUBOPS + ["RemoveFootnote"], 2, 3, "sub3",
-                       mode="sim", num=300, depth=16, limit=2500)
+                       mode="sim", num=6000, depth=16, limit=2500)
             execute(ctx, sub3, "sub3", "go")
     if on("race"):
         # (5) the same programs free-running on one goroutine per document under the race detector
         race = gen(ctx, "gen_race.cfg", "SpecGen", "Emit", 2, CORE if q else FULL, 1, 2, "race")
-        execute(ctx, unordered(ctx, race, "race"), "race", "race", rounds=24 if q else 40)
+        execute(ctx, unordered(ctx, race, "race"), "race", "race", rounds=16 if q else 40)
         if not q:
             race2 = gen(ctx, "gen_race2.cfg", "SpecGen", "Emit", 3, FULL, 3, 7, "race2", mode="sim", num=8, depth=8, limit=200)
             execute(ctx, unordered(ctx, race2, "race2"), "race2", "race", rounds=24)
